@@ -1,7 +1,7 @@
 (* C07: k-mer counting is exact and independent of threads, chunking and partitioning. *)
 From Coq Require Import NArith ZArith List.
 From KT Require Import Gen.Generated Gen.Alphabet Gen.FactsBase Gen.FactLetters Gen.FactTableKmer Model.Kmer Model.Ops Model.Rows Model.Pipeline Proof.CountSched Proof.Merge Proof.CountProof.
-From KT Require Import Model.Show Model.Fs Model.CtrFs Proof.CtrFsProof Proof.CountLive Proof.PassesProof.
+From KT Require Import Model.Show Model.Fs Model.CtrFs Proof.CtrFsProof Proof.CountLive Proof.PassesProof Proof.MergeSum.
 Import ListNotations.
 Open Scope N_scope.
 
@@ -81,6 +81,34 @@ Proof.
   revert Hb. apply Forall_impl. intros s. apply Forall_impl. intros b Hb. exact (table_ok_spec table_kmer table_kmer_ok b Hb).
 Qed.
 
+(* "so its counts sum to the number of valid k-mer windows in the input": the counts of the merged table add up
+   to the number of windows the specification enumerates, for every partition count and every chunking - and so
+   do the counts parsed back from the kmers.counts file of the file-level model, whatever the directory held *)
+Theorem C07_counts_sum_to_window_count :
+  forall k n_parts chunks, (1 <= k <= 31)%nat -> 1 <= n_parts ->
+  Forall (Forall (fun b => 4 <= b < 256)) (concat chunks) ->
+  lsum (map snd (merged n_parts (map (all_canon k) chunks)))
+  = length (concat (map (spec_kmers digit_of_letter k) (concat chunks))).
+Proof.
+  intros k n_parts chunks Hk Hn Hb. rewrite (merged_counts_sum n_parts _ Hn). unfold everything.
+  rewrite all_canon_concat, (all_canon_model_spec k _ Hk).
+  - unfold all_canon_spec. apply length_concat_map_map.
+  - revert Hb. apply Forall_impl. intros s. apply Forall_impl. intros b Hb. exact (table_ok_spec table_kmer table_kmer_ok b Hb).
+Qed.
+
+Theorem C07_counts_file_sums_to_window_count :
+  forall k n_parts dir chunks f, (1 <= k <= 31)%nat -> 1 <= n_parts ->
+  Forall (Forall (fun b => 4 <= b < 256)) (concat chunks) ->
+  exists f' content, ctr_fs n_parts dir (map (all_canon k) chunks) f = Some f' /\
+    fs_read (counts_name dir) f' = Some content /\
+    lsum (map snd (parse_file content)) = length (concat (map (spec_kmers digit_of_letter k) (concat chunks))).
+Proof.
+  intros k n_parts dir chunks f Hk Hn Hb.
+  destruct (ctr_fs_correct n_parts dir (map (all_canon k) chunks) f) as (f' & Hrun & Hc & _).
+  exists f', (file_text (merged n_parts (map (all_canon k) chunks))). split; [exact Hrun|split; [exact Hc|]].
+  rewrite parse_file_text. exact (C07_counts_sum_to_window_count k n_parts chunks Hk Hn Hb).
+Qed.
+
 (* a temp file's text parses back to the table it was written from *)
 Theorem C07_temp_file_round_trip : forall l, parse_file (file_text l) = l.
 Proof. exact parse_file_text. Qed.
@@ -95,6 +123,8 @@ Print Assumptions C07_one_line_per_kmer.
 Print Assumptions C07_every_kmer_has_its_line.
 Print Assumptions C07_counts_table_exact.
 Print Assumptions C07_counts_file_exact_whatever_the_directory_held.
+Print Assumptions C07_counts_sum_to_window_count.
+Print Assumptions C07_counts_file_sums_to_window_count.
 Print Assumptions C07_temp_file_round_trip.
 Print Assumptions C07_counting_terminates_with_one_worker.
 Print Assumptions C07_file_level_instance_is_exact.
